@@ -77,7 +77,9 @@ def Sense(
                     mps[c * coil_batch_size : ((c + 1) * coil_batch_size)],
                     coord=coord,
                     weights=batch_weights(c),
+                    tseg=tseg,
                     ishape=ishape,
+                    transp_nufft=transp_nufft,
                 )
                 for c in range(num_coil_batches)
             ],
